@@ -1,4 +1,5 @@
 #!/usr/bin/env bash
-# developer tool: dumps all keyed violations (ignoring the known-findings file) for the given properties, both tiers
-mkdir -p /tmp/kfdump; rm -f /tmp/kfdump/*
-for p in "$@"; do for t in quick thorough; do VERIF_NO_KNOWN=1 VERIF_EVIDENCE_DIR=/tmp/kfdump/ev VERIF_DUMP_KEYS=/tmp/kfdump/$p-$t.txt /verif/check $p $t >/dev/null 2>&1; echo "$p $t rc=$? $(cut -f2,3 /tmp/kfdump/$p-$t.txt 2>/dev/null | sort -u | cut -f1 | uniq -c | tr '\n' ' ')"; done; done
+# developer tool: dumps all keyed violations (ignoring the known-findings file) for the given properties, both tiers,
+# into /tmp/kfdump/<ID>-<tier>.txt (dumps of properties not named are kept). Then: python3 tools_gen_known.py /tmp/kfdump/*.txt
+mkdir -p /tmp/kfdump
+for p in "$@"; do for t in quick thorough; do rm -f /tmp/kfdump/$p-$t.txt; VERIF_NO_KNOWN=1 VERIF_EVIDENCE_DIR=/tmp/kfdump-ev VERIF_DUMP_KEYS=/tmp/kfdump/$p-$t.txt /verif/check $p $t >/dev/null 2>&1; echo "$p $t rc=$? $(cut -f2,3 /tmp/kfdump/$p-$t.txt 2>/dev/null | sort -u | cut -f1 | uniq -c | tr '\n' ' ')"; done; done
